@@ -1503,6 +1503,9 @@ class Epoch(object):
         69.3
         """
 
+        if not (isinstance(year, (int, float))
+                and isinstance(month, (int, float))):
+            raise TypeError("Invalid input type")
         y = year + (month - 0.5) / 12.0
         if year < -500:
             u = (year - 1820.0) / 100.0
